@@ -5,6 +5,7 @@ import (
 	"encoding/binary"
 	"fmt"
 	"math/rand"
+	"os"
 	"sort"
 	"strconv"
 	"strings"
@@ -126,8 +127,32 @@ func decArg(s string) sdkmath.LegacyDec {
 func (w *World) BuildMsg(signer int, m Msg) (sdk.Msg, error) {
 	sa := w.signerAcct(signer)
 	sender := sa.Addr.String()
+	if w.senderOverride != "" {
+		sender = w.senderOverride
+	}
 	a := m.Args
 	switch m.Kind {
+	case "VOTE":
+		return govv1.NewMsgVote(sa.Addr, uint64(atoi64(a[0])), govv1.OptionYes, ""), nil
+	case "GOVSUB":
+		// a governance proposal whose messages are sent by the gov account itself (as x/gov requires): what a chain with
+		// the default PoA admin uses for every admin operation
+		w.senderOverride = authtypes.NewModuleAddress("gov").String()
+		var inner []sdk.Msg
+		var berr error
+		for _, s := range m.Sub {
+			im, err := w.BuildMsg(signer, s)
+			if err != nil {
+				berr = err
+				break
+			}
+			inner = append(inner, im)
+		}
+		w.senderOverride = ""
+		if berr != nil {
+			return nil, berr
+		}
+		return govv1.NewMsgSubmitProposal(inner, sdk.NewCoins(sdk.NewCoin(BondDenom, sdkmath.NewInt(1))), sa.Addr.String(), "", "t", "s", false)
 	case "SETPOWER":
 		p, err := strconv.ParseUint(a[1], 10, 64)
 		if err != nil {
@@ -235,7 +260,15 @@ func (r TxResult) Class() string {
 	return fmt.Sprintf("%s:%d", r.Codespace, r.Code)
 }
 
+// GovRes: a proposal x/gov's EndBlocker executed in the block (its messages ran, all or nothing)
+type GovRes struct {
+	ID   uint64
+	Msgs []Msg
+	OK   bool
+}
+
 type BlockOut struct {
+	Gov     []GovRes
 	Height  int64
 	Txs     []TxResult
 	Updates []abci.ValidatorUpdate
@@ -275,6 +308,7 @@ func (n *Node) ExecBlock(b Block, seqBump map[int]uint64) (out BlockOut) {
 	h := n.Height + 1
 	t := n.Time.Add(time.Duration(b.DtNs))
 	out.Height = h
+	nextProp := n.NextProposalID()
 	r := rand.New(rand.NewSource(h*7919 + 13))
 	var txs [][]byte
 	// several txs by one signer in one block need consecutive sequences
@@ -359,6 +393,15 @@ func (n *Node) ExecBlock(b Block, seqBump map[int]uint64) (out BlockOut) {
 			return
 		}
 		out.RawResp = resp
+		if os.Getenv("POAVERIF_DEBUG_EVENTS") != "" {
+			for _, ev := range resp.Events {
+				var as []string
+				for _, a := range ev.Attributes {
+					as = append(as, a.Key+"="+a.Value)
+				}
+				fmt.Fprintf(os.Stderr, "EVENT h=%d %s %v\n", h, ev.Type, as)
+			}
+		}
 		for _, tr := range resp.TxResults {
 			out.Txs = append(out.Txs, TxResult{Codespace: tr.Codespace, Code: tr.Code, Log: tr.Log})
 		}
@@ -372,8 +415,55 @@ func (n *Node) ExecBlock(b Block, seqBump map[int]uint64) (out BlockOut) {
 	if out.Halt == "" {
 		n.Height = h
 		n.Time = t
+		// proposals: remember the ones this block's transactions submitted (ids are handed out in order), then see which of
+		// the open ones x/gov's EndBlocker has brought to an end
+		for i, tx := range b.Txs {
+			if i < len(out.Txs) && out.Txs[i].Code == 0 {
+				for _, m := range tx.Msgs {
+					if m.Kind == "GOVSUB" {
+						n.props[nextProp] = m.Sub
+						nextProp++
+					}
+				}
+			}
+		}
+		var ids []uint64
+		for id := range n.props {
+			ids = append(ids, id)
+		}
+		sort.Slice(ids, func(i, j int) bool { return ids[i] < ids[j] })
+		ctx := n.Ctx()
+		for _, id := range ids {
+			p, err := n.App.GovKeeper.Proposals.Get(ctx, id)
+			if err != nil {
+				delete(n.props, id) // rejected proposals are deleted together with their votes
+				continue
+			}
+			switch p.Status {
+			case govv1.StatusPassed:
+				out.Gov = append(out.Gov, GovRes{ID: id, Msgs: n.props[id], OK: true})
+				delete(n.props, id)
+			case govv1.StatusFailed:
+				out.Gov = append(out.Gov, GovRes{ID: id, Msgs: n.props[id], OK: false})
+				delete(n.props, id)
+			case govv1.StatusRejected:
+				delete(n.props, id)
+			}
+		}
 	}
 	return out
+}
+
+// NextProposalID: the id x/gov will give to the next proposal
+func (n *Node) NextProposalID() uint64 {
+	if n.Height == 0 {
+		return 1
+	}
+	id, err := n.App.GovKeeper.ProposalID.Peek(n.Ctx())
+	if err != nil {
+		return 1
+	}
+	return id
 }
 
 // ---- observations ----
@@ -601,7 +691,7 @@ func (n *Node) Observe() []string {
 	{
 		a := 0
 		var res poa.QueryPoaAuthorityResponse
-		if err := n.routedQuery("/strangelove_ventures.poa.v1.Query/PoaAuthority", &poa.QueryPoaAuthorityRequest{}, &res); err == nil && res.Authority == w.Admin.Addr.String() {
+		if err := n.routedQuery("/strangelove_ventures.poa.v1.Query/PoaAuthority", &poa.QueryPoaAuthorityRequest{}, &res); err == nil && res.Authority == w.AdminAddr(n.G).String() {
 			a = 1
 		}
 		out = append(out, fmt.Sprintf("AUTH %d", a))
@@ -617,7 +707,12 @@ func (n *Node) Observe() []string {
 			name string
 			addr sdk.AccAddress
 		}{
-			{"gov", authtypes.NewModuleAddress("gov")},
+			{"gov", func() sdk.AccAddress {
+				if n.G.GovAdmin {
+					return w.Admin.Addr // here the gov account is the admin; the account of the environment override is nobody
+				}
+				return authtypes.NewModuleAddress("gov")
+			}()},
 			{"distribution", authtypes.NewModuleAddress("distribution")},
 			{"bonded", authtypes.NewModuleAddress("bonded_tokens_pool")},
 			{"fresh", sdk.AccAddress([]byte("probe-fresh-address-xx"))},
